@@ -30,6 +30,12 @@ OBLIGATIONS = [NS + t for t in [
     "restatement_equiv_scale_ineq", "restatement_equiv_scale_eq", "restatement_equiv_combined_eq",
     "restatement_equiv_dup_eq", "restatement_equiv_scale_obj", "restatement_equiv_perm_rows",
     "restatement_equiv_perm_vars",
+    # gap-closing round: the Newton system, every exit of the solver, reduce, the starting point, the KKT test
+    "newton_solution_is_newton_direction", "noineq_exact_solution_optimal",
+    "iterate_exit_cases", "iterate_status_iff", "solve_refused_start_iff", "solve_exits", "solve_converged_sound",
+    "solve_converged_gap_bound",
+    "reduce_contract_same_solutions", "prepared_same_feasible_set",
+    "default_start_strictly_feasible", "user_start_accepted_iff", "kkt_test_le_iff",
 ]]
 TRUSTED = [
     "Lean 4.33.0 kernel; Mathlib modules Mathlib.Algebra.Order.Field.Basic, Mathlib.Tactic.Ring/Linarith/Positivity/FieldSimp/NormNum, "
@@ -37,12 +43,22 @@ TRUSTED = [
     "axioms: at most propext, Classical.choice, Quot.sound (audited per theorem on every run)",
     "NanoVerif/Gen/ProgramDone.lean (program_t::feasible and the status decision of solver_t::done) is re-translated from "
     "src/program/solver.cpp on every run by tools/props/c04_translate.py (boolean skeleton parsed, leaves from a fixed table)",
-    "hand-written generic-scalar model NanoVerif/Model/ProgramBase.lean + Program.lean of src/program/solver.cpp (normalize, "
-    "program_t::update, make_smax, the two backtracking stages, the loop body, solve_without_inequality) and "
-    "src/program/state.cpp (residual); tied to the code by trace replay: harness/c04.cpp runs program::solver_t with the NANO_VERIF "
-    "trace sink, driver_c04 recomputes every logged number and decision from the logged (x,u,v), (dx,du,dv) and the caller's program",
-    "ORACLES of the model (never proved): Eigen LDLT (the Newton step and the KKT solve of the equality-only path), Eigen FullPivLU "
-    "(program::reduce), make_strictly_feasible (the default x0)",
+    "hand-written generic-scalar model NanoVerif/Model/ProgramBase.lean + Program.lean + ProgramNewton.lean + ProgramSolve.lean of "
+    "src/program/solver.cpp (normalize, program_t::update, the linear system m_lmat/m_lvec of program_t::solve, du, make_smax, the two "
+    "backtracking stages, the loop body and its six exits, the whole loop with m_iters / m_kkt, solve_without_inequality, make_x0, the four "
+    "solve overloads), src/program/state.cpp (residual, the KKT test m_kkt) and src/program/constrained.cpp (make_strictly_feasible); tied "
+    "to the code by trace replay: harness/c04.cpp runs program::solver_t with the NANO_VERIF trace sink, driver_c04 recomputes every logged "
+    "number and decision from the logged (x,u,v), (dx,du,dv) and the caller's program, re-runs the WHOLE loop from the logged start and the "
+    "logged Newton answers alone (returned status, m_iters, fx, m_kkt, x, u, v compared with the returned state), and evaluates the model's "
+    "system matrix on the logged step",
+    "ORACLES of the model: Eigen LDLT (the Newton step and the KKT solve of the equality-only path; contract 'solves kktMat z = kktVec', "
+    "theorems newton_solution_is_newton_direction / noineq_exact_solution_optimal; MONITORED at run time on every logged step whose "
+    "slacks are well separated from 0 (kappa <= 1e4) and whose H = Q - G'diag(u/g)G and K are regular (pivot ratio >= 1e-6): normwise "
+    "residual <= 1e-5; on the other steps only counted — Eigen's diagonal-pivoting LDLT does miss the contract on regular K with singular H), "
+    "Eigen FullPivLU (program::reduce; contract RowEquiv = same row space of [A|b], theorems reduce_contract_same_solutions / "
+    "prepared_same_feasible_set; MONITORED on every call: kept rows = exact rank of [A|b] (python fractions), every returned row within 1e-9 "
+    "of the row space of [A|b] and vice versa), the least-squares solve of make_strictly_feasible (no contract needed; the returned default "
+    "start is checked exactly against G x0 < h on every call)",
     "tools/props/c04.py: generator, exact rational oracle (python fractions: KKT certificate check, Bland simplex, active-set "
     "enumeration), comparator; harness/c04.cpp; g++/libstdc++/Eigen",
 ]
@@ -58,7 +74,11 @@ ASSUMPTIONS = [
     "to get it); compare_why counts compared / skipped decisions in CMP_STATS",
     "when program::reduce removed dependent equality rows the reduced normalised (A,b) are taken from the trace (FullPivLU is an oracle); "
     "feasibility w.r.t. the caller's equalities is then checked by the python oracle on the returned point",
-    "the default x0 (make_strictly_feasible) is read back through the public API and is an input of the model",
+    "the default x0 (make_strictly_feasible) is read back through the public API and is an input of the model; the model of its trial "
+    "schedule (msfLoop) is proved about but not run against the code (its oracle answers are not logged)",
+    "the whole-run comparison is skipped when any decision of the run had a rounding-level margin (counted: whole-run-skipped); the run is "
+    "seeded with the logged u0 (compared on its own, record U), so that the model's iterates are bit-identical to the logged ones",
+    "m_kkt is modelled as coded: for a program without any constraint the stationarity test has size 0 and drops out (corpus line)",
 ]
 RULE = ("KKT-constructed LPs/convex QPs with exactly representable data (n 1..12, 0..n-1 equalities, 1..2n+2 inequalities, random / few / "
         "many / vertex active sets incl. weakly active rows, Q = D'D rank 1..n, power-of-two magnitudes 2^-7..2^7 per block and per row, "
@@ -131,8 +151,10 @@ def parse(aug, want_trace=True):
                        x0=x0u)
     assert t.s() == "R"
     c["reduced"] = t.int()
+    c["red"] = None
     if c["reduced"]:
-        t.fs(); t.fs()
+        Ar2 = t.fs(); br2 = t.fs()
+        c["red"] = (chunk(Ar2, n, len(br2)), br2)
     recs = []
     while True:
         tag = t.s()
@@ -420,6 +442,16 @@ def parse_res(res):
         return None
     assert t.s() == "X"
     r = dict(status=t.int(), iters=t.int(), fx=t.f(), x=t.fs(), u=t.fs(), v=t.fs())
+    assert t.s() == "K"
+    r["kkt"] = t.f()
+    assert t.s() == "N"
+    r["mufx"] = t.f(); r["p"] = t.int()
+    Qn = t.fs(); cn = t.fs(); An = t.fs(); bn = t.fs(); Gn = t.fs(); hn = t.fs()
+    n = len(cn)
+    r["norm"] = dict(Q=None if not Qn else chunk(Qn, n, n), c=cn, A=chunk(An, n, len(bn)), b=bn, G=chunk(Gn, n, len(hn)), h=hn)
+    r["started"] = None
+    if not t.done() and t.t[t.i] == "B":
+        t.s(); r["started"] = t.int()
     r["rest"] = t.rest()
     return r
 
@@ -428,14 +460,235 @@ def key_of(rkind, clause):
     return clause if rkind == "none" else f"restatement:{rkind}:{clause}"
 
 
+# run-time monitors of the oracle contracts of the model (Props/C04.lean: newton_solution_is_newton_direction,
+# reduce_contract_same_solutions, default_start_strictly_feasible), evaluated on every call whatever the status
+
+NEWTON_TOL = 1e-5      # |K z - r|_i <= NEWTON_TOL x (sum of the magnitudes of the terms of row i) ...
+NEWTON_KAPPA = 1e4     # ... on iterations whose slacks G x - h are known to 1/NEWTON_KAPPA relative accuracy
+MON_STATS = collections.Counter()
+
+
+def _sc(terms):
+    return math.fsum(terms), math.fsum(abs(t) for t in terms)
+
+
+def newton_rows(N, miu, x, u, v, dx, du, dv):
+    """the three block rows of `r + J.Delta` at (x,u,v) for the step (dx,du,dv), each as (value, magnitude of the terms);
+    first block in the eliminated form the solver hands to LDLT: (Q - G' diag(u/g) G) dx + A' dv + rdual + G'(rcent/g);
+    plus kappa = max_i (|G||x| + |h|)_i / |g_i|"""
+    Q, cc, A, b, G, h = N["Q"], N["c"], N["A"], N["b"], N["G"], N["h"]
+    n, p, m = len(cc), len(b), len(h)
+    g, gs = zip(*[_sc([G[i][k] * x[k] for k in range(n)] + [-h[i]]) for i in range(m)])
+    kappa = max((gs[i] / abs(g[i]) if g[i] != 0 else math.inf) for i in range(m))
+    if kappa == math.inf:
+        return None, None, None, kappa, None, None
+    eta_t = [-u[i] * g[i] for i in range(m)]
+    eta, etas = _sc(eta_t)
+    t = -eta / (miu * m); ts = etas / (miu * m)
+    rc = [t - u[i] * g[i] for i in range(m)]
+    rcs = [ts + abs(u[i] * g[i]) for i in range(m)]
+    Gdx, Gdxs = zip(*[_sc([G[i][k] * dx[k] for k in range(n)]) for i in range(m)])
+    top = []
+    for j in range(n):
+        terms = [cc[j]]
+        if Q is not None:
+            terms += [Q[j][k] * x[k] for k in range(n)] + [Q[j][k] * dx[k] for k in range(n)]
+        terms += [A[i][j] * v[i] for i in range(p)] + [A[i][j] * dv[i] for i in range(p)]
+        terms += [G[i][j] * u[i] for i in range(m)]
+        val, sc = _sc(terms + [-G[i][j] * (u[i] / g[i]) * Gdx[i] for i in range(m)] + [G[i][j] * rc[i] / g[i] for i in range(m)])
+        sc = math.fsum([abs(q) for q in terms] + [abs(G[i][j] * (u[i] / g[i])) * Gdxs[i] for i in range(m)]
+                       + [abs(G[i][j] / g[i]) * rcs[i] for i in range(m)])
+        top.append((val, sc))
+    bot = [_sc([A[i][k] * x[k] for k in range(n)] + [-b[i]] + [A[i][k] * dx[k] for k in range(n)]) for i in range(p)]
+    cen = [(rc[i] - u[i] * Gdx[i] - g[i] * du[i], rcs[i] + abs(u[i]) * Gdxs[i] + abs(g[i] * du[i])) for i in range(m)]
+    dus = [(rc[i] - u[i] * Gdx[i]) / g[i] for i in range(m)]
+    duss = [(rcs[i] + abs(u[i]) * Gdxs[i]) / abs(g[i]) for i in range(m)]
+    return top, bot, cen, kappa, dus, duss
+
+
+NEWTON_RCOND = 1e-6    # ... and whose system matrix has pivots within this ratio (complete pivoting, python floats)
+
+
+def pivots_rcond(K):
+    """min |pivot| / max |pivot| of Gaussian elimination with complete pivoting (python floats); 0 for a singular matrix"""
+    K = [list(r) for r in K]
+    N2 = len(K)
+    if N2 == 0:
+        return 1.0
+    piv = []
+    rows = list(range(N2)); cols = list(range(N2))
+    for s_ in range(N2):
+        best = max(((abs(K[r][c_]), r, c_) for r in rows for c_ in cols), default=(0.0, None, None))
+        if best[0] == 0.0:
+            return 0.0
+        _, r, c_ = best
+        piv.append(best[0])
+        rows.remove(r); cols.remove(c_)
+        for r2 in rows:
+            f = K[r2][c_] / K[r][c_]
+            if f != 0.0:
+                for c2 in cols:
+                    K[r2][c2] -= f * K[r][c2]
+    return min(piv) / max(piv)
+
+
+def kkt_rcond(N, x, u):
+    """(rcond of H = Q - G' diag(u/g) G, rcond of K = [[H, A'], [A, 0]]). Eigen's LDLT pivots on the diagonal only: with a
+    singular H and p > 0 it stops at the zero block although K is regular (its documented domain is semidefinite
+    matrices), so the contract `K z = r` can only be expected of it when H itself is regular."""
+    Q, cc, A, b, G, h = N["Q"], N["c"], N["A"], N["b"], N["G"], N["h"]
+    n, p, m = len(cc), len(b), len(h)
+    g = [math.fsum([G[i][k] * x[k] for k in range(n)] + [-h[i]]) for i in range(m)]
+    w = [u[i] / g[i] for i in range(m)]
+    K = [[0.0] * (n + p) for _ in range(n + p)]
+    for j in range(n):
+        for k in range(n):
+            K[j][k] = (Q[j][k] if Q is not None else 0.0) - math.fsum(G[i][j] * w[i] * G[i][k] for i in range(m))
+        for i in range(p):
+            K[j][n + i] = A[i][j]; K[n + i][j] = A[i][j]
+    return pivots_rcond([r[:n] for r in K[:n]]), pivots_rcond(K)
+
+
+def relmax(rows):
+    worst = 0.0
+    for val, sc in rows:
+        if val != val:
+            return math.inf
+        if val != 0:
+            worst = max(worst, abs(val) / sc if sc > 0 else math.inf)
+    return worst
+
+
+def monitor_newton(c, r):
+    N = r["norm"]; miu = c["par"]["miu"]
+    recs = c["recs"]
+    for k in range(len(recs) - 1):
+        if recs[k][0] != "I" or recs[k + 1][0] != "S":
+            continue
+        _, x, u, v = recs[k]; _, dx, du, dv = recs[k + 1]
+        if not all(math.isfinite(t) for t in x + u + v + dx + du + dv):
+            continue
+        top, bot, cen, kappa, _, _ = newton_rows(N, miu, x, u, v, dx, du, dv)
+        MON_STATS["newton-steps"] += 1
+        if not kappa <= NEWTON_KAPPA:
+            MON_STATS["newton-steps-near-boundary"] += 1
+            continue
+        rcH, rcK = kkt_rcond(N, x, u)
+        if not (rcH >= NEWTON_RCOND and rcK >= NEWTON_RCOND):
+            MON_STATS["newton-steps-ill-conditioned"] += 1
+            if rcK >= NEWTON_RCOND and max(relmax(top), relmax(bot)) > NEWTON_TOL:
+                MON_STATS["newton-contract-missed-by-ldlt:singular-H-regular-K"] += 1
+            continue
+        MON_STATS["newton-steps-checked"] += 1
+        # LDLT is backward stable normwise, not row by row: the (dx, dv) blocks are measured against the largest row
+        big = max(sc for _, sc in top + bot)
+        for name, rows in (("dual", [(val, big) for val, _ in top]), ("primal", [(val, big) for val, _ in bot]), ("central", cen)):
+            w = relmax(rows)
+            if w > NEWTON_TOL:
+                return (f"[newton-contract:{name}] iteration {k}: the logged step does not solve the {name} block of the linearised "
+                        f"KKT system r + J.d = 0 (relative residual {w:.3e} > {NEWTON_TOL:.0e}, kappa {kappa:.2e})")
+    return None
+
+
+def exact_rank(rows):
+    M = [list(rw) for rw in rows]
+    rank = 0
+    ncol = len(M[0]) if M else 0
+    for col in range(ncol):
+        piv = next((i for i in range(rank, len(M)) if M[i][col] != 0), None)
+        if piv is None:
+            continue
+        M[rank], M[piv] = M[piv], M[rank]
+        for i in range(rank + 1, len(M)):
+            if M[i][col] != 0:
+                f = M[i][col] / M[rank][col]
+                M[i] = [a - f * bb for a, bb in zip(M[i], M[rank])]
+        rank += 1
+    return rank
+
+
+def span_residual(basis_rows, rows):
+    """max over `rows` of |row - projection on span(basis_rows)| / |row| (floats, modified Gram-Schmidt, twice)"""
+    B = []
+    for rw in basis_rows:
+        w = list(rw); nw = math.sqrt(math.fsum(t * t for t in w))
+        if nw == 0:
+            continue
+        for _ in range(2):
+            for q in B:
+                d = math.fsum(a * bb for a, bb in zip(w, q))
+                w = [a - d * bb for a, bb in zip(w, q)]
+        n2 = math.sqrt(math.fsum(t * t for t in w))
+        if n2 > 1e-9 * nw:
+            B.append([t / n2 for t in w])
+    worst = 0.0
+    for rw in rows:
+        w = list(rw); nw = math.sqrt(math.fsum(t * t for t in w))
+        if nw == 0:
+            continue
+        for _ in range(2):
+            for q in B:
+                d = math.fsum(a * bb for a, bb in zip(w, q))
+                w = [a - d * bb for a, bb in zip(w, q)]
+        worst = max(worst, math.sqrt(math.fsum(t * t for t in w)) / nw)
+    return worst
+
+
+REDUCE_TOL = 1e-9
+
+
+def monitor_reduce(c, r):
+    S = c["stated"]
+    if not S["b"]:
+        return None
+    MON_STATS["reduce-calls"] += 1
+    aug_rows = [list(a) + [bb] for a, bb in zip(S["A"], S["b"])]
+    rank = exact_rank([frv(rw) for rw in aug_rows])
+    if r["p"] != rank:
+        return (f"[reduce-contract:rank] reduce kept {r['p']} of {len(aug_rows)} equality rows but the exact rank of [A|b] is {rank}")
+    if c["red"] is None:
+        return None
+    MON_STATS["reduce-calls-reducing"] += 1
+    red_rows = [list(a) + [bb] for a, bb in zip(*c["red"])]
+    w1 = span_residual(aug_rows, red_rows)
+    if w1 > REDUCE_TOL:
+        return f"[reduce-contract:rows] a returned row is not in the row space of [A|b] (relative residual {w1:.3e})"
+    w2 = span_residual(red_rows, aug_rows)
+    if w2 > REDUCE_TOL:
+        return f"[reduce-contract:dropped] a row of [A|b] is not in the span of the returned rows (relative residual {w2:.3e})"
+    return None
+
+
+def monitor_start(c, r):
+    S = c["stated"]
+    if not S["h"] or c["x0mode"] != 0:
+        return None
+    x0 = S["x0"]
+    MON_STATS["default-starts"] += 1
+    if not any(x0):
+        return None
+    MON_STATS["default-starts-found"] += 1
+    s = [a - hh for a, hh in zip(xmv(frm(S["G"]), frv(x0)), frv(S["h"]))]
+    if any(t >= 0 for t in s):
+        return f"[default-start] make_strictly_feasible returned a point with max(G x0 - h) = {float(max(s)):.3e} >= 0"
+    return None
+
+
+def monitors(c, r):
+    return monitor_reduce(c, r) or monitor_start(c, r) or monitor_newton(c, r)
+
+
 def oracle(aug, res):
     c = parse(aug, want_trace=False)
     r = parse_res(res)
     if r is None:
         return f"[{key_of(c['rkind'], 'throw')}] the solver threw on a well-formed program: {res[:60]}"
+    c = parse(aug)
+    why = monitors(c, r)
+    if why:
+        return why
     if STATUS.get(r["status"]) != "converged":
         return None
-    c = parse(aug)
     rk = c["rkind"]
     if not all(math.isfinite(v) for v in r["x"] + r["u"] + r["v"] + [r["fx"]]):
         return f"[{key_of(rk, 'nonfinite')}] converged with a non-finite state"
@@ -548,7 +801,10 @@ def compare_why(aug, impl, model):
     a = Rd(impl.split()); b = Rd(model.split())
     a.s(); b.s()
     assert a.s() == "X"
-    a.int(); a.int(); a.f(); a.fs(); a.fs(); a.fs()
+    X = dict(status=a.int(), iters=a.int(), fx=a.f(), x=a.fs(), u=a.fs(), v=a.fs())
+    assert a.s() == "K"
+    X["kkt"] = a.f()
+    any_unc = False      # some decision of the run was too close to call: the whole-run model may legitimately differ
     # N
     if a.s() != "N" or b.s() != "N":
         return "no N record"
@@ -558,9 +814,13 @@ def compare_why(aug, impl, model):
     p_i, p_m = a.int(), b.int()
     if p_i != p_m:
         return "number of reduced equalities"
+    Nf = {}
     for name in ["Q", "c", "A", "b", "G", "h"]:
-        if not vnear(a.fs(), b.fs(), 1e-11, 1e-14):
+        Nf[name] = a.fs()
+        if not vnear(Nf[name], b.fs(), 1e-11, 1e-14):
             return "normalised " + name
+    Nn = dict(Q=None if not Nf["Q"] else chunk(Nf["Q"], n, n), c=Nf["c"], A=chunk(Nf["A"], n, len(Nf["b"])), b=Nf["b"],
+              G=chunk(Nf["G"], n, len(Nf["h"])), h=Nf["h"])
     p = p_i; m = len(c["stated"]["h"])
     th = DULP * (n + p + m + 3)   # the driver prints margins relative to the magnitude of the terms behind both sides
     uncertain = False
@@ -574,10 +834,23 @@ def compare_why(aug, impl, model):
             if mg > th:
                 return f"start decision: impl {st_i} model {st_m} margin {mg:.3e}"
             return None
+        if mg <= th:
+            any_unc = True
     k = 0            # index into recs
     cur = None       # (x, u, v) of the current iteration
     while True:
         ta, tb = a.s(), b.s()
+        if tb == "L":
+            # the whole run of the model (solveIneq / solveNoineq driven by the logged Newton answers) against the returned state
+            L = dict(status=b.int(), iters=b.int(), fx=b.f(), kkt=b.f(), x=b.fs(), u=b.fs(), v=b.fs(), div=b.int())
+            tb = b.s()
+            CMP_STATS["whole-run"] += 1
+            if any_unc or uncertain:
+                CMP_STATS["whole-run-skipped"] += 1
+            else:
+                why = compare_run(X, L, n, p, m, mufx_i)
+                if why:
+                    return why
         if ta != tb:
             return f"record {ta} vs {tb}"
         if ta == "E":
@@ -623,10 +896,16 @@ def compare_why(aug, impl, model):
             x, u, v = cur
             s1_i = a.f()
             smax = b.f(); s1_m = b.of(); mg1 = b.f(); s2_m = b.of(); mg2 = b.f(); kind_m = b.int(); mgk = b.f()
+            if b.s() != "W":
+                return "no W record"
+            wres = b.fs(); du_m = b.fs(); r3_m = b.fs(); b.int()
+            why = compare_newton(Nn, par["miu"], x, u, v, dx, du, dv, wres, du_m, r3_m)
+            if why:
+                return why
             sx = n * (ninf(x) + abs(s1_i) * ninf(dx)) + 1
             CMP_STATS["stage1"] += 1
             if mg1 <= th:
-                uncertain = True; CMP_STATS["stage1-skipped"] += 1
+                uncertain = True; any_unc = True; CMP_STATS["stage1-skipped"] += 1
             elif s1_m is None or not near(s1_i, s1_m, 1e-12, 0):
                 return f"stage 1: impl s = {s1_i!r}, model {s1_m!r} (smax {smax!r}, margin {mg1:.3e})"
             # what the implementation did next
@@ -636,7 +915,7 @@ def compare_why(aug, impl, model):
                 moved = nxt[1] != x or nxt[2] != u or nxt[3] != v
             CMP_STATS["stage2"] += 1
             if mg2 <= th or uncertain:
-                uncertain = True; CMP_STATS["stage2-skipped"] += 1
+                uncertain = True; any_unc = True; CMP_STATS["stage2-skipped"] += 1
                 continue
             if nxt is None:
                 # loop left without a record: failed (non-finite) or max_iters; decided at E
@@ -651,7 +930,7 @@ def compare_why(aug, impl, model):
                 kind_i = 0 if nxt[0] == "I" else 1
                 CMP_STATS["eps0"] += 1
                 if mgk <= th:
-                    uncertain = True; CMP_STATS["eps0-skipped"] += 1
+                    uncertain = True; any_unc = True; CMP_STATS["eps0-skipped"] += 1
                 elif kind_i != kind_m:
                     return f"epsilon0 test: impl {'stops' if kind_i else 'continues'}, model kind {kind_m} (margin {mgk:.3e})"
         elif ta == "D":
@@ -663,7 +942,7 @@ def compare_why(aug, impl, model):
             CMP_STATS["done"] += 1
             uncertain = False     # `done` is a function of the logged point alone (whatever path led to it)
             if mgf <= th:
-                uncertain = True; CMP_STATS["done-skipped"] += 1
+                uncertain = True; any_unc = True; CMP_STATS["done-skipped"] += 1
                 continue
             if feas_i != feas_m:
                 return f"feasible flag impl {feas_i} model {feas_m} (margin {mgf:.3e})"
@@ -676,7 +955,7 @@ def compare_why(aug, impl, model):
             if not near(fx_i, fx_m, RTOL, FLOOR * (abs(mufx_i) * (n * n * nx * nx + n * nx) + 1e-300)):
                 return "fx at done"
             if mgs <= th:
-                uncertain = True; CMP_STATS["status-skipped"] += 1
+                uncertain = True; any_unc = True; CMP_STATS["status-skipped"] += 1
         elif ta == "Z":
             _, x, v = rec
             nx, nv = ninf(x), ninf(v)
@@ -692,11 +971,56 @@ def compare_why(aug, impl, model):
             if not vnear(rp_i, rp_m, RTOL, FLOOR * sx):
                 return "noineq: rprim"
             if mga <= th:
-                uncertain = True
+                uncertain = True; any_unc = True
             elif ap_i != ap_m:
                 return f"noineq: isApprox impl {ap_i} model {ap_m} (margin {mga:.3e})"
         else:
             return "unknown record " + ta
+
+
+def compare_newton(N, miu, x, u, v, dx, du, dv, wres, du_m, r3_m):
+    """the model's system `kktMat . (dx, dv) - kktVec`, its `du` and the linearised centrality residual against an independent
+    evaluation of the same quantities (and `du` against the logged one, solver.cpp:299)"""
+    if not all(math.isfinite(t) for t in x + u + v + dx + du + dv):
+        return None
+    top, bot, cen, kappa, dus, duss = newton_rows(N, miu, x, u, v, dx, du, dv)
+    CMP_STATS["newton"] += 1
+    if not kappa <= 1e8:
+        CMP_STATS["newton-skipped"] += 1
+        return None
+    tol = 1e-9 + 1e-14 * kappa
+    rows = top + bot
+    if len(wres) != len(rows) or len(du_m) != len(du) or len(r3_m) != len(cen):
+        return "newton: sizes"
+    for i, ((val, sc), w) in enumerate(zip(rows, wres)):
+        if not abs(val - w) <= tol * sc:
+            return f"newton: row {i} of the model's system residual {w!r} vs {val!r} (terms {sc:.3e}, kappa {kappa:.2e})"
+    for i, (dm, di, sc) in enumerate(zip(du_m, du, duss)):
+        if not abs(dm - di) <= tol * sc:
+            return f"newton: du[{i}] model {dm!r} logged {di!r} (terms {sc:.3e}, kappa {kappa:.2e})"
+    for i, ((val, sc), w) in enumerate(zip(cen, r3_m)):
+        if not abs(val - w) <= tol * sc:
+            return f"newton: centrality row {i} {w!r} vs {val!r}"
+    return None
+
+
+def compare_run(X, L, n, p, m, mufx):
+    if X["status"] != L["status"]:
+        return f"whole run: status impl {STATUS.get(X['status'])} model {STATUS.get(L['status'])}"
+    if X["iters"] != L["iters"]:
+        return f"whole run: iterations impl {X['iters']} model {L['iters']}"
+    nx, nu, nv = ninf(X["x"]), ninf(X["u"]), ninf(X["v"])
+    if nx != nx or nu != nu or nv != nv:
+        nx = nu = nv = 0.0
+    for nm, sc in (("x", nx), ("u", nu), ("v", nv)):
+        if not vnear(X[nm], L[nm], 1e-7, 1e-10 * sc):
+            return f"whole run: returned {nm}"
+    sx = n * nx + 1
+    if not near(X["fx"], L["fx"], 1e-7, 1e-10 * (abs(mufx) * (n * n * nx * nx + n * nx) + 1e-300)):
+        return f"whole run: fx impl {X['fx']!r} model {L['fx']!r}"
+    if not near(X["kkt"], L["kkt"], 1e-7, 1e-10 * (1 + nu) * (sx + p * nv + m * nu)):
+        return f"whole run: m_kkt impl {X['kkt']!r} model {L['kkt']!r}"
+    return None
 
 
 def compare(aug, impl, model):
